@@ -128,6 +128,12 @@ def coversB (cf : CF) : Bool :=
         | none => false)
       | none => false)
 
+/-- `missing_parents()` with a non-empty set = parents of registered hashes that are not registered -/
+def missingB (cf : CF) : Bool :=
+  let waited := (cf.dbt.filter fun e => match dget cf.dbt e.1 with | some (_ :: _) => true | _ => false).map (·.1)
+  let tops := (cf.parent.filter fun e => (dget cf.parent e.2).isNone).map (·.2)
+  waited.all (tops.contains ·) && tops.all (waited.contains ·)
+
 def cacheB (bc : BC) : Bool :=
   match bc.cache with
   | some c => upPathB bc.finder.parent (c ++ [bc.parentHash])
@@ -142,7 +148,8 @@ def runInv (rev : Bool) : List DStep → BC → List String → List String
       | .pre pre => Except.ok (bc.preload pre) : Except Err BC) with
     | .error e => (showErr e :: acc).reverse
     | .ok bc' =>
-      runInv rev ss bc' ((showBool (soundB bc'.finder) ++ showBool (coversB bc'.finder) ++ showBool (cacheB bc')) :: acc)
+      runInv rev ss bc' ((showBool (soundB bc'.finder) ++ showBool (coversB bc'.finder) ++ showBool (cacheB bc') ++
+        showBool (missingB bc'.finder)) :: acc)
 
 /-- `+h@i` / `-h@i`; `h = -1` stands for a block that is not in storage (`None`) -/
 def parseOp? (s : String) : Option Op := do
